@@ -1,6 +1,7 @@
 import NavisModel.Proofs.DistLemmas
 import NavisModel.Proofs.SegmentLemmas
 import NavisModel.Proofs.DistX5Lemmas
+import NavisModel.Proofs.EdgeDtypeLemmas
 import NavisModel.Model.DistGen
 /-!
 # C05 — tree distances and segment decompositions match their definitions
@@ -543,6 +544,63 @@ theorem smallSegmentsOKB_sound_head (t : Table) (segs : List (List Int)) (h : sm
       exact ⟨a, n, rfl, hf, hh.1, hh.2⟩
 
 end AsWritten
+
+/-! ### edge weights and integer-typed coordinate columns -/
+section EdgeDtypes
+open Navis.EdgeDtype Navis.DistX
+
+/-- **Every Python site that computes an edge length takes the child − parent difference in float** (`neuron2nx`,
+`neuron2igraph`, the node-table path of `cable_length`: both operands `.astype(float)`; `parent_dist`: the parent operand is
+float by construction), as read from the current source — **and therefore computes the model's `coordLen` whatever the dtype of
+the coordinate columns** (float, signed or unsigned integers of any width).  Dropping a cast makes this theorem fail. -/
+theorem edge_weights_in_float_as_written :
+    ([nxSite?, igSite?, clSite?, pdSite?].filterMap id).length = 4 ∧
+      ∀ s ∈ [nxSite?, igSite?, clSite?, pdSite?].filterMap id, ∀ (col : Dt) (t : Table) (a b : Int),
+        edgeLenAt s col t a b = coordLen t a b := by
+  refine ⟨by decide, ?_⟩
+  intro s hs col t a b
+  have hall : ([nxSite?, igSite?, clSite?, pdSite?].filterMap id).all siteInFloatB = true := by decide
+  exact edgeLenAt_eq_coordLen (List.all_eq_true.mp hall s hs) col t a b
+
+/-- … hence the Euclidean distance whenever that is an integer `w` (`w² = dx² + dy² + dz²`), for every column dtype. -/
+theorem edge_length_is_euclidean_as_written (t : Table) (a b : Int) (na nb : Node) (ha : find? t a = some na) (hb : find? t b = some nb)
+    (w : Nat) (hw : sqDist na nb = w * w) (col : Dt) :
+    ∀ s ∈ [nxSite?, igSite?, clSite?, pdSite?].filterMap id, edgeLenAt s col t a b = w := by
+  intro s hs
+  rw [edge_weights_in_float_as_written.2 s hs col t a b]
+  exact coordLen_exact ha hb w hw
+
+/-- The cast is REQUIRED, witness 1 (`cable_length`'s node-table path before navis commit 12b2794: difference of the raw
+columns, `np.linalg.norm` squares in float): uint32 columns, child at x = 3, parent at x = 5 — the difference wraps to
+2³² − 2 and that is the "length" (the Euclidean one is 2). -/
+theorem uncast_unsigned_difference_wraps :
+    edgeLenAt ⟨.raw, .raw, false⟩ (.uint 32) [⟨1, -1, 5, 0, 0, .root⟩, ⟨2, 1, 3, 0, 0, .end_⟩] 2 1 = 4294967294 ∧
+    coordLen [⟨1, -1, 5, 0, 0, .root⟩, ⟨2, 1, 3, 0, 0, .end_⟩] 2 1 = 2 := by
+  constructor
+  · have e : (sqLenIn (diffDt .raw .raw (.uint 32)) false ⟨2, 1, 3, 0, 0, .end_⟩ ⟨1, -1, 5, 0, 0, .root⟩).toNat = 4294967294 * 4294967294 := by decide
+    show isqrt (sqLenIn (diffDt .raw .raw (.uint 32)) false ⟨2, 1, 3, 0, 0, .end_⟩ ⟨1, -1, 5, 0, 0, .root⟩).toNat = 4294967294
+    rw [e, isqrt_sq]
+  · decide
+
+/-- Witness 2 (`neuron2igraph` before navis commit 67e95bf, `neuron2nx` without its cast: difference AND squares in the
+columns' dtype): uint16 columns, an edge of length 300 — 300² = 90000 overflows to 24464, the "length" is 156; int32 columns,
+an edge of length 50000 — the square overflows to a negative number (numpy: NaN; here 0). -/
+theorem uncast_squares_overflow :
+    edgeLenAt ⟨.raw, .raw, true⟩ (.uint 16) [⟨1, -1, 0, 0, 0, .root⟩, ⟨2, 1, 300, 0, 0, .end_⟩] 2 1 = 156 ∧
+    coordLen [⟨1, -1, 0, 0, 0, .root⟩, ⟨2, 1, 300, 0, 0, .end_⟩] 2 1 = 300 ∧
+    edgeLenAt ⟨.raw, .raw, true⟩ (.sint 32) [⟨1, -1, 0, 0, 0, .root⟩, ⟨2, 1, 50000, 0, 0, .end_⟩] 2 1 = 0 ∧
+    coordLen [⟨1, -1, 0, 0, 0, .root⟩, ⟨2, 1, 50000, 0, 0, .end_⟩] 2 1 = 50000 := by
+  refine ⟨by decide, by decide, by decide, ?_⟩
+  show isqrt (sqDist ⟨2, 1, 50000, 0, 0, .end_⟩ ⟨1, -1, 0, 0, 0, .root⟩) = 50000
+  have e : sqDist ⟨2, 1, 50000, 0, 0, .end_⟩ ⟨1, -1, 0, 0, 0, .root⟩ = 50000 * 50000 := by decide
+  rw [e, isqrt_sq]
+
+/-- Small unsigned differences with the squares taken in the same dtype are benign (arithmetic modulo 2ᵇ squares
+correctly): the wrap only shows once a square overflows — which is why the igraph weights were right on small uint32 tables
+while `cable_length` was not. -/
+example : edgeLenAt ⟨.raw, .raw, true⟩ (.uint 32) [⟨1, -1, 5, 0, 0, .root⟩, ⟨2, 1, 3, 0, 0, .end_⟩] 2 1 = 2 := by decide
+
+end EdgeDtypes
 
 /-! ### Non-vacuity (second pass) -/
 section ExamplesX
